@@ -362,7 +362,15 @@ namespace vh
             if (st.max_live > c["max_live"])
                 c["max_live"] = st.max_live;
             for (const auto& kv : r.counters)
-                c[kv.first] += kv.second;
+            {
+                if (kv.first.compare(0, 4, "max.") == 0)
+                {
+                    if (kv.second > c[kv.first])
+                        c[kv.first] = kv.second;
+                }
+                else
+                    c[kv.first] += kv.second;
+            }
             for (int i = 0; i < 64; ++i)
                 pair_bits[i] |= st.pair_bits[i];
         }
